@@ -1,7 +1,7 @@
 (* C46 — the rendered phrase reads back, and the model satisfies the checker. *)
 From Coq Require Import List ZArith NArith Bool Lia String.
 Import ListNotations.
-From TV Require Import Lib.Obs C46.Model C46.Run C46.ProofsNum C46.ProofsDate.
+From TV Require Import Lib.Obs C46.Model C46.Run C46.ProofsNum C46.ProofsDate C46.ProofsCal C46.ProofsText.
 Local Open Scope Z_scope.
 
 Lemma span_digits_app : forall s c rest, all_digits s -> is_digit c = false ->
@@ -43,15 +43,17 @@ Qed.
 
 Theorem check_case_on_model : forall c, check_case c (run_case c) = true.
 Proof.
-  intros [en v | now delta gmt relative shorter full]; cbn [check_case run_case].
+  intros [en v | clk now delta gmt relative shorter full | date gmt dow | fa parts | sup cs];
+    cbn [check_case run_case].
   - destruct en.
     + destruct (friendly_number_reads_back v) as (s & Hs & Hp).
       rewrite Hs. cbn [out_text check_num]. rewrite Hp. apply Z.eqb_refl.
     + destruct (friendly_number_plain v) as (s & Hs & _ & Hp).
       rewrite Hs. cbn [out_text check_num]. rewrite Hp. apply Z.eqb_refl.
   - set (i := mk_dinput now delta gmt relative shorter full).
-    destruct (format_date i) as [u n | c sh] eqn:E; cbn [out_date].
-    + apply relative_result_spec in E.
+    destruct (format_date i) as [u n | c sh] eqn:E.
+    + unfold date_text. rewrite E.
+      apply relative_result_spec in E.
       destruct E as (_ & _ & Hd & _ & _ & Hnear & Hpos & _).
       change (d_delta i) with delta in *.
       destruct (render_rel_reads_back u n Hpos) as (s & Hs & Hp).
@@ -60,5 +62,11 @@ Proof.
       * apply Z.leb_le. unfold skew_seconds in Hd. lia.
       * apply Z.leb_le. exact Hnear.
       * apply eqb_reflx.
-    + destruct c, sh; reflexivity.
+    + destruct (absolute_text_spec clk i c sh E) as (s & Hs & _ & Hna & Hp).
+      rewrite Hs. cbn [out_text check_date]. rewrite Hp, Hna. reflexivity.
+  - destruct (format_day_spec date gmt dow) as (mn & wd & d & Hs & _). rewrite Hs. reflexivity.
+  - rewrite locale_list_spec. reflexivity.
+  - destruct (get_closest_supported sup cs) as [H | H].
+    + rewrite H. reflexivity.
+    + rewrite H, text_eq_refl. apply orb_true_r.
 Qed.
